@@ -1,5 +1,5 @@
 (* C19 - property theorems only.  Each is closed by `exact`; Print Assumptions follows. *)
-From Coq Require Import List Arith.
+From Coq Require Import List Arith Lia.
 From PV Require Import C19.Model C19.Proofs.
 Import ListNotations.
 
@@ -51,6 +51,23 @@ Theorem C19_alive_no_report : forall r h,
   Forall sendres h -> ~ dies r 0 h -> trace r 0 h = repeat Send (length h).
 Proof. intros r h. exact (alive_no_terminal r h 0 (Nat.le_0_l r)). Qed.
 Print Assumptions C19_alive_no_report.
+
+(* Detection is bounded: if from some point on every keep-alive fails (at least retries+1
+   of them), the loss is reported, and no more than retries+1 keep-alives beyond the
+   answered prefix are ever sent - for every retries, every prefix, every n. *)
+Theorem C19_dead_detected_within_bound : forall r pre n,
+  Forall sendres pre -> S r <= n ->
+  In Failure (trace r 0 (pre ++ repeat IFail n)) /\
+  cnt Failure (trace r 0 (pre ++ repeat IFail n)) = 1 /\
+  cnt Send (trace r 0 (pre ++ repeat IFail n)) <= length pre + S r.
+Proof.
+  intros r pre n F N. assert (I : In Failure (trace r 0 (pre ++ repeat IFail n))).
+  { apply C19_failure_iff. exists pre, (repeat IFail (n - S r)). split; [|assumption].
+    rewrite <- repeat_app. do 2 f_equal. lia. }
+  split; [exact I|]. split; [|exact (sends_until_detected r pre 0 n (Nat.le_0_l r) F)].
+  exact (in_cnt_failure_one r _ I).
+Qed.
+Print Assumptions C19_dead_detected_within_bound.
 
 (* Non-vacuity: the hypotheses are met by concrete non-trivial histories. *)
 Example C19_ex_dies : In Failure (trace 1 0 [IOk; IFail; IOk; IFail; IFail; IOk]).
